@@ -55,22 +55,45 @@ impl<V: Vector<Tr>> VecLike for V {
     }
 }
 
-/// heap block holding a relocatable container and its memory; never moved after init
+thread_local! {
+    /// which alias mapping the current (logical) thread uses for aliased blocks
+    pub static ALIAS: std::cell::Cell<usize> = const { std::cell::Cell::new(0) };
+}
+/// alias ranges of the most recently created aliased block: (base, size, alias index)
+pub static ALIAS_RANGES: std::sync::Mutex<Vec<(usize, usize, usize)>> = std::sync::Mutex::new(Vec::new());
+
+/// Memory block holding a relocatable container (header at `shift`, its data behind it).
+/// Two flavours: a heap block that can be *relocated* (copied byte for byte to a fresh address, the
+/// old block is poisoned), and a memfd block mapped at several addresses at once (*aliases*: every
+/// logical thread works through its own mapping, like every process that opens a segment).
 pub struct RelocBlock<C> {
     pub c: *mut C,
     layout: std::alloc::Layout,
     base: *mut u8,
+    shift: usize,
+    graveyard: Vec<*mut u8>,
+    aliases: Vec<*mut u8>,
+    pub relocations: usize,
+}
+unsafe extern "C" {
+    fn memfd_create(name: *const core::ffi::c_char, flags: u32) -> i32;
+    fn ftruncate(fd: i32, len: i64) -> i32;
+    fn mmap(addr: *mut u8, len: usize, prot: i32, flags: i32, fd: i32, off: i64) -> *mut u8;
+    fn munmap(addr: *mut u8, len: usize) -> i32;
+    fn close(fd: i32) -> i32;
 }
 impl<C: RelocatableContainer> RelocBlock<C> {
     pub fn try_new(capacity: usize, shift: usize) -> Option<Self> {
         let r = std::panic::catch_unwind(std::panic::AssertUnwindSafe(|| Self::new(capacity, shift)));
         r.ok()
     }
-    pub fn new(capacity: usize, shift: usize) -> Self {
+    fn sizes(capacity: usize) -> (usize, usize, std::alloc::Layout) {
         let hdr = std::mem::size_of::<C>().next_multiple_of(16);
         let mem = C::memory_size(capacity) + 64;
-        let layout = std::alloc::Layout::from_size_align(hdr + mem + 64, 64).unwrap();
-        let base = unsafe { std::alloc::alloc(layout) };
+        (hdr, mem, std::alloc::Layout::from_size_align(hdr + mem + 64, 64).unwrap())
+    }
+    unsafe fn init_at(base: *mut u8, capacity: usize, shift: usize) -> *mut C {
+        let (hdr, mem, layout) = Self::sizes(capacity);
         unsafe { std::ptr::write_bytes(base, 0xAB, layout.size()) }; // dirty memory: nothing may rely on zeroed storage
         let c = unsafe { base.add(shift) } as *mut C;
         unsafe {
@@ -79,21 +102,74 @@ impl<C: RelocatableContainer> RelocBlock<C> {
             let alloc = BumpAllocator::new(NonNull::new(data).unwrap(), mem);
             (*c).init(&alloc).expect("init");
         }
-        RelocBlock { c, layout, base }
+        c
+    }
+    pub fn new(capacity: usize, shift: usize) -> Self {
+        let (_, _, layout) = Self::sizes(capacity);
+        let base = unsafe { std::alloc::alloc(layout) };
+        let c = unsafe { Self::init_at(base, capacity, shift) };
+        RelocBlock { c, layout, base, shift, graveyard: vec![], aliases: vec![], relocations: 0 }
+    }
+    /// one memory object mapped `n` times; initialised through mapping 0
+    pub fn new_aliased(capacity: usize, shift: usize, n: usize) -> Self {
+        let (_, _, layout) = Self::sizes(capacity);
+        let len = layout.size().next_multiple_of(4096);
+        let fd = unsafe { memfd_create(c"verif-reloc".as_ptr(), 0) };
+        assert!(fd >= 0 && unsafe { ftruncate(fd, len as i64) } == 0);
+        let mut aliases = vec![];
+        for _ in 0..n.max(1) {
+            let p = unsafe { mmap(core::ptr::null_mut(), len, 3, 1, fd, 0) }; // PROT_READ|PROT_WRITE, MAP_SHARED
+            assert!(p as isize != -1);
+            aliases.push(p);
+        }
+        unsafe { close(fd) };
+        let base = aliases[0];
+        let c = unsafe { Self::init_at(base, capacity, shift) };
+        *ALIAS_RANGES.lock().unwrap() = aliases.iter().enumerate().map(|(k, p)| (*p as usize, len, k)).collect();
+        RelocBlock { c, layout: std::alloc::Layout::from_size_align(len, 64).unwrap(), base, shift, graveyard: vec![], aliases, relocations: 0 }
     }
     pub fn get(&self) -> &mut C {
-        unsafe { &mut *self.c }
+        if self.aliases.is_empty() {
+            unsafe { &mut *self.c }
+        } else {
+            let k = ALIAS.with(|a| a.get()) % self.aliases.len();
+            unsafe { &mut *(self.aliases[k].add(self.shift) as *mut C) }
+        }
     }
     /// address range of the whole block (container header + its data)
     pub fn range(&self) -> (usize, usize) {
         (self.base as usize, self.layout.size())
+    }
+    /// the block moves: byte-for-byte copy to a fresh allocation; the old block stays allocated but
+    /// is overwritten, so that anything still pointing into it reads garbage instead of stale truth
+    pub fn relocate(&mut self) {
+        assert!(self.aliases.is_empty());
+        let nb = unsafe { std::alloc::alloc(self.layout) };
+        unsafe {
+            std::ptr::copy_nonoverlapping(self.base, nb, self.layout.size());
+            std::ptr::write_bytes(self.base, 0xCD, self.layout.size());
+        }
+        self.graveyard.push(self.base);
+        self.base = nb;
+        self.c = unsafe { nb.add(self.shift) } as *mut C;
+        self.relocations += 1;
     }
 }
 impl<C> Drop for RelocBlock<C> {
     fn drop(&mut self) {
         unsafe {
             std::ptr::drop_in_place(self.c);
-            std::alloc::dealloc(self.base, self.layout);
+            if self.aliases.is_empty() {
+                std::alloc::dealloc(self.base, self.layout);
+                for g in self.graveyard.drain(..) {
+                    std::alloc::dealloc(g, self.layout);
+                }
+            } else {
+                for a in self.aliases.drain(..) {
+                    munmap(a, self.layout.size());
+                }
+                ALIAS_RANGES.lock().unwrap().clear();
+            }
         }
     }
 }
@@ -142,6 +218,11 @@ fn num(s: &str) -> usize {
 }
 impl Comp for VecComp {
     fn exec(&mut self, t: &[&str]) -> String {
+        if t[0] == "reloc" {
+            // C14: the block moves to another address (only the relocatable flavour lives in such a block)
+            if let AnyVec::R(b) = &mut self.v { b.relocate(); }
+            return format!("ok {}", take_drops());
+        }
         let r = match t[0] {
             "new" => {
                 self.v = AnyVec::None;
